@@ -28,7 +28,7 @@ from vlib.dialects import budget_parser
 
 ID = "C15"
 LEVEL = "exploration"
-BUDGET = {"quick": 200, "thorough": 1500}
+BUDGET = {"quick": 300, "thorough": 1500}
 RULE = (
     "(a) all 1,114,112 code points x 5 grammars (always complete); (b) (code point, "
     "position, configuration) triples over 24 basic label positions (among them the "
@@ -346,8 +346,90 @@ def mixed_wiring(acc, cps):
         acc.event("mixed_codepoints")
 
 
+def check_stream(case):
+    """None or (signature, detail): a label handed over as bytes with the character at
+    byte 8192*k + delta."""
+    import io
+    import os
+    import shutil
+    o, k, delta, g, way = case["cp"], case["k"], case["delta"], case["grammar"], case["way"]
+    tail = bytes.fromhex(case["tail"])
+    c = chr(o)
+    stmt = f'k = "a{c}b"\nj = 2\nEND\n'
+    head = "x = 0\n/* "
+    fill = 8192 * k + delta - len((head + " */\n" + 'k = "a').encode())
+    text = head + "p" * fill + " */\n" + stmt
+    assert len(text[:text.index(c)].encode()) == 8192 * k + delta
+    data = text.encode("utf-8") + tail
+    lf = counting_lexer()
+    d = os.path.join(os.path.dirname(os.path.dirname(os.path.abspath(__file__))),
+                     ".work", f"c15-{os.getpid()}")
+    try:
+        if way == "path":
+            os.makedirs(d, exist_ok=True)
+            pth = os.path.join(d, "f.img")
+            with open(pth, "wb") as f:
+                f.write(data)
+            m = pvl.load(pth, grammar=GRAMMARS[g](), lexer_fn=lf)
+        else:
+            m = pvl.load(io.BytesIO(data), grammar=GRAMMARS[g](), lexer_fn=lf)
+        out = ("module", m)
+    except BudgetExceeded:
+        out = ("spins", None)
+    except Exception as e:
+        out = ("raised", e)
+    finally:
+        shutil.rmtree(d, ignore_errors=True)
+    ok = allowed(g, o)
+    why = None
+    if out[0] == "spins":
+        why = ("spins", "token budget exceeded")
+    elif not ok and out[0] == "module":
+        why = ("disallowed-accepted",
+               f"U+{o:04X} at byte {8192 * k + delta} of a {way} was accepted under "
+               f"{g}: k = {out[1].get('k')!r}")
+    elif not ok and type(out[1]).__name__ != "LexerError":
+        why = ("wrong-exception", repr(out[1]))
+    elif ok and out[0] == "raised":
+        why = ("allowed-rejected", repr(out[1]))
+    elif ok and out[1].get("k") != f"a{c}b":
+        why = ("character-changed", f"k = {out[1].get('k')!r}, expected 'a{c}b'")
+    if why:
+        return (f"C15/stream/{g}/{why[0]}", why[1])
+    return None
+
+
+def via_streams(acc, cps):
+    """The same clause through the other entry points: the label arrives as bytes
+    (binary stream, or a file with image data behind it) and the character sits at,
+    before or across a multiple of 8192 bytes - the size of the blocks files are read
+    in."""
+    for o in cps:
+        try:
+            nb = len(chr(o).encode("utf-8"))
+        except UnicodeEncodeError:
+            continue
+        for k in (1, 2):
+            for delta in range(-nb, 2):
+                for tail in (b"", b"\xff\xfe\x00", b"\n" + b"\x80" * 9000):
+                    for g in ("PVL", "ODL", "PDS3"):
+                        for way in ("binary-stream", "path"):
+                            if acc.expired():
+                                acc.notes["budget_exhausted"] = 1
+                                return
+                            case = dict(kind="stream", grammar=g, way=way, cp=o, k=k,
+                                        delta=delta, tail=tail.hex())
+                            r = check_stream(case)
+                            acc.case(key=repr(case), nontrivial=not allowed(g, o))
+                            acc.event("stream-loads")
+                            if r is not None:
+                                acc.fail(r[0], case, r[1])
+
+
 def shards(tier, seed):
     out = []
+    out.append(("via_streams", dict(cps=[0xB5, 0xE9, 0x7F, 0x80, 0xFF])))
+    out.append(("via_streams", dict(cps=[0x100, 0x20AC, 0xFEFF, 0x1F600, 0x41])))
     mix = [o for o in codepoints_quick(seed) if o >= 0x300 or o % 4 == 0 or
            o in (8, 9, 13, 14, 31, 127, 128, 159, 160, 255)]
     if tier == "quick":
@@ -373,6 +455,8 @@ def shards(tier, seed):
 
 
 def replay(case):
+    if case["kind"] == "stream":
+        return check_stream(case)
     if case["kind"] == "table":
         g = GRAMMARS[case["grammar"]]()
         got = bool(g.char_allowed(chr(case["cp"])))
